@@ -206,6 +206,17 @@ func CustomCoerce(kind string, data any) any {
 	panic("model: CustomCoerce " + kind)
 }
 
+// GlobalCoercer is the function installed into conf.Coercers.<base kind> for
+// global-override runs.
+func GlobalCoercer(base string) conf.CoercerFunc {
+	return func(data any) (any, error) {
+		if s, ok := data.(string); ok && s == "COERCE-ERR" {
+			return nil, errors.New("global coercer refused")
+		}
+		return CustomCoerce(base, data), nil
+	}
+}
+
 func (e *Env) coercer(n *Node) conf.CoercerFunc {
 	kind := n.Kind
 	return func(data any) (any, error) {
